@@ -451,7 +451,15 @@ def gen_unit(rng):
         amps.append(ab)
     if amps and rng.random() < 0.3:
         amps.append(copy.deepcopy(rng.choice(amps)))
-    return {'kind': 'fcr', 'amps': amps, 'si': [REF - 100 * GRID, REF + 100 * GRID]}
+    if k < 0.85:
+        return {'kind': 'fcr', 'amps': amps, 'si': [REF - 100 * GRID, REF + 100 * GRID]}
+    # the dictionaries carry a 'spacing' entry: 0 key absent, 1 None, 2 a value; copies that differ in spacing only
+    for _ in range(rng.randint(0, 2)):
+        if amps:
+            amps.append(copy.deepcopy(rng.choice(amps)))
+    samps = [[[b[0], b[1], rng.choice([0, 0, 1, 2, 2]), rng.choice([50000000000, 75000000000, 100000000000])]
+              for b in a] for a in amps]
+    return {'kind': 'fcrsp', 'amps': samps, 'si': [REF - 100 * GRID, REF + 100 * GRID]}
 
 
 def drive_unit(case):
@@ -469,7 +477,12 @@ def drive_unit(case):
                 m = sa.slots_to_m(a, b)
                 out.append(f'{s[0]}:{s[1]}:{m[0]}:{m[1]}')
             return {'line': ','.join(out)}
-        bands = [[{'f_min': float(b[0]), 'f_max': float(b[1])} for b in a] for a in case['amps']]
+        if case['kind'] == 'fcrsp':
+            bands = [[dict({'f_min': float(b[0]), 'f_max': float(b[1])},
+                           **({} if b[2] == 0 else {'spacing': None} if b[2] == 1 else {'spacing': float(b[3])}))
+                      for b in a] for a in case['amps']]
+        else:
+            bands = [[{'f_min': float(b[0]), 'f_max': float(b[1])} for b in a] for a in case['amps']]
         res = find_common_range(bands, float(case['si'][0]), float(case['si'][1]), 50e9)
         return {'line': ','.join(f"{frac_s(b['f_min'])}:{frac_s(b['f_max'])}" for b in res)}
     except Exception as e:
@@ -502,6 +515,9 @@ def term_unit(case):
         return 'n2f_case ' + listlit([f'({zlit(n)}, {qlit(g)})' for n, g in case['pts']])
     if case['kind'] == 'slots':
         return 'slots_case ' + listlit([f'({zlit(a)}, {zlit(b)})' for a, b in case['pts']])
+    if case['kind'] == 'fcrsp':
+        return (f"fcrsp_case {listlit([listlit([f'sb {qlit(b[0])} {qlit(b[1])} {b[2]} {qlit(b[3])}' for b in a]) for a in case['amps']])} "
+                f"{bandlit(case['si'])}")
     return (f"fcr_case {listlit([listlit([bandlit(b) for b in a]) for a in case['amps']])} {bandlit(case['si'])}")
 
 
@@ -1059,7 +1075,7 @@ def run(ctx):
                 ctx.violation(key, desc, pc)
             terms.append(term_cob(c))
             meta.append((pc, obs['line'], 'corr:Oms.create_oms_bitmap'))
-        elif kind in ('f2n', 'n2f', 'slots', 'fcr'):
+        elif kind in ('f2n', 'n2f', 'slots', 'fcr', 'fcrsp'):
             obs = drive_unit(c)
             ctx.count('unit_' + kind)
             ctx.case(pc, True)
@@ -1070,7 +1086,8 @@ def run(ctx):
                 ctx.violation(key, desc, pc)
             terms.append(term_unit(c))
             meta.append((pc, obs['line'], 'corr:Oms.' + {'f2n': 'frequency_to_n', 'n2f': 'nvalue_to_frequency',
-                                                          'slots': 'slots_to_m', 'fcr': 'find_common_range'}[kind]))
+                                                          'slots': 'slots_to_m', 'fcr': 'find_common_range',
+                                                          'fcrsp': 'find_common_range_sp'}[kind]))
         elif kind == 'raw':
             obs = drive_raw(c)
             ctx.count('raw_malformed' if c['malformed'] else 'raw_wellformed')
@@ -1117,15 +1134,17 @@ def run(ctx):
     for (pc, impl, corr), model in zip(meta, lines):
         m = canon_model(model)
         if corr == 'corr:Oms.build_oms_list':
-            # the model row carries two flags: chain_wf_b (graph is chain-structured) and net_hyps_b (all hypotheses
-            # of theorem build_oms_list_ok hold for this network)
+            # the model row carries three flags: chain_wf_b (graph is chain-structured), net_hyps_b (all hypotheses of
+            # theorem build_oms_list_ok hold for this network), net_local_hyps_b (hypotheses of build_oms_list_local:
+            # local graph conditions + amplifier bands only)
             parts = m.split('#')
             flags = parts[1] if len(parts) > 1 else '??'
             ctx.count('net_chain_wf_' + flags[0:1])
             ctx.count('net_theorem_hypotheses_' + flags[1:2])
-            if flags[1:2] == 'T' and impl.startswith('E:'):
-                ctx.violation('theorem_hyps_but_raises', 'all hypotheses of build_oms_list_ok hold, yet build_oms_list '
-                              'raised ' + impl, pc)
+            ctx.count('net_local_hypotheses_' + flags[2:3])
+            if 'T' in flags[1:3] and impl.startswith('E:'):
+                ctx.violation('theorem_hyps_but_raises', 'all hypotheses of build_oms_list_ok / build_oms_list_local '
+                              'hold, yet build_oms_list raised ' + impl, pc)
             m = parts[0] if impl.startswith('E:') or len(parts) < 3 else parts[0] + '#' + parts[2]
         if m != impl:
             a, b = impl.split('/'), m.split('/')
@@ -1142,8 +1161,9 @@ def run(ctx):
         'raw-graph stream: elements are Roadm/Transceiver/Edfa/Multiband_amplifier/Fused instances created without '
         '__init__ (uid, params.bands only); a walk of build_oms_list that exceeds the number of (node, node) states is '
         'stopped by a guard on OMS.add_element and compared with the model\'s out-of-fuel result',
-        'find_common_range is modelled on (f_min, f_max) only; remove_duplicates compares these two keys (spacing and '
-        'other keys of a band never reach the spectrum map)',
+        'find_common_range is modelled on (f_min, f_max); theorem spacing_irrelevant shows that a spacing entry seen by '
+        'remove_duplicates cannot change the result, and the unit stream fcrsp compares the spacing-carrying model '
+        'find_common_range_sp with the real function on dictionaries with absent / None / valued spacing',
         'off-grid band edges (stream offgrid, library variant 3) are compared model-vs-implementation but the '
         'FREE-exactly-inside clause is only counted there (int() truncates toward zero on both sides of 193.1 THz)',
     ]
@@ -1151,7 +1171,10 @@ def run(ctx):
         'theorems build_oms_list_ok / oms_partition are conditional on decidable hypotheses (chain-structured graph, '
         'sorted non-overlapping common range inside the network range on every line); net_hyps_b evaluates them in Coq on every designed network: '
         f"held on {ctx.counters.get('net_theorem_hypotheses_T', 0)} networks, not on "
-        f"{ctx.counters.get('net_theorem_hypotheses_F', 0)} (those are judged by oracle and correspondence only)",
+        f"{ctx.counters.get('net_theorem_hypotheses_F', 0)} (those are judged by oracle and correspondence only); "
+        'net_local_hyps_b (theorem build_oms_list_local: local graph conditions and amplifier bands only, no line '
+        f"decomposition supplied) held on {ctx.counters.get('net_local_hypotheses_T', 0)} networks, not on "
+        f"{ctx.counters.get('net_local_hypotheses_F', 0)}",
         'matchers for open findings (effective only for entries listed as open in known_findings.json): '
         'oms-empty-common-range, trx-on-line-oms, si-band-outside-network-range',
         'n_freq_roundtrip_float is a finite theorem (n in [-4000, 4000], grid 6.25 GHz) computed with PrimFloat by '
